@@ -55,6 +55,13 @@ EDGES = {
     "variant_inline": "pub enum R§ { #[ts(inline)] A { x: M§ }, U }",
     "container_as": '#[ts(as = "M§")] pub struct R§ { pub x: Opaque }',
     "two_in_one_file": "pub struct R§ { pub a: S1§, pub b: S2§ }",
+    "inline_then_name": "pub struct R§ { #[ts(inline)] pub own: M§, pub again: M§ }",
+    "name_then_inline": "pub struct R§ { pub again: M§, #[ts(inline)] pub own: M§ }",
+    "flatten_then_name": "pub struct R§ { #[ts(flatten)] pub own: M§, pub again: Option<M§> }",
+    "inline_then_default": "pub struct R§<T = M§> { #[ts(inline)] pub own: M§, pub tag: T }",
+    "as_then_name": 'pub struct R§ { #[ts(as = "D§")] pub a: Opaque, pub b: Vec<D§> }',
+    "variant_inline_then_name": "pub enum R§ { A { #[ts(inline)] own: M§, again: M§ }, B(M§) }",
+    "same_type_twice": "pub struct R§ { pub a: D§, pub b: Option<D§>, pub c: G§<D§> }",
     "flatten_enum": "pub struct R§ { #[ts(flatten)] pub f: FE§, pub z: i32 }",
 }
 DPLACES = {"default": "", "dir": '#[ts(export_to = "sub/")]', "file": '#[ts(export_to = "custom/file§.ts")]', "nested": '#[ts(export_to = "a/b/")]',
@@ -85,7 +92,11 @@ def case_unit(n, case):
         "#[derive(TS)] %s %s" % (rp, EDGES[case["edge"]]),
     ]
     src = " ".join(items).replace("§", g)
-    root_ty = "R%s" % g if case["edge"] != "param_default" else "R%s<D%s>" % (g, g)
+    root_ty = "R%s" % g
+    if case["edge"] == "param_default":
+        root_ty = "R%s<D%s>" % (g, g)
+    if case["edge"] == "inline_then_default":
+        root_ty = "R%s<M%s>" % (g, g)
     return corpus.Unit("X%s" % g, src, [], serde=False, meta={"root_ty": root_ty, "case": case})
 
 
